@@ -400,6 +400,10 @@ func classifyVerify(err error) (string, string) {
 	return "", "other: " + Short(msg, 120)
 }
 
+// objects shared by ALL Verify calls of a run (the same map objects, never fresh literals)
+var sharedPluginConfig = map[string]string{"verif.config": "c04", "k": "v"}
+var sharedUserMetadata = map[string]string{}
+
 func runAPI(a *Args, w *CaseWriter, rng *Rng, nAPI int, next func() (int64, bool)) error {
 	// per chain: 10 native cases + 2 cases with a verification plugin named by the
 	// signature + nSys systematic list shapes (rotating through listShapes)
@@ -481,10 +485,6 @@ func runAPI(a *Args, w *CaseWriter, rng *Rng, nAPI int, next func() (int64, bool
 						w.ImplViolation(ids[j], "panic in NewVerifier/Verify during trusted-identity evaluation", cc, "")
 					}
 				}()
-				initial := identities
-				if late {
-					initial = []string{"*"}
-				}
 				var override map[trustpolicy.ValidationType]trustpolicy.ValidationAction
 				vopts := verifier.VerifierOptions{}
 				envelope := c.env
@@ -510,9 +510,25 @@ func runAPI(a *Args, w *CaseWriter, rng *Rng, nAPI int, next func() (int64, bool
 					}}}
 					envelope = c.penv
 				}
-				doc := OCIPolicy(level, override, []string{"ca:s"}, append([]string(nil), initial...), "")
+				// the caller's slices: handed to the library inside the document, never copied by the driver
+				callerIDs := append([]string(nil), identities...)
+				callerInitial := callerIDs
+				if late {
+					callerInitial = []string{"*"}
+				}
+				doc := OCIPolicy(level, override, []string{"ca:s"}, callerInitial, "")
 				vopts.OCITrustPolicy = doc
+				frame := func(step string, before []snapItem, idsNow []string) {
+					after := snapVerify(doc, idsNow, envelope, apiDesc, c.store, sharedPluginConfig, sharedUserMetadata)
+					for _, what := range frameDiff(before, after) {
+						cc.Obs = "library mutated caller-owned " + what + " during " + step
+						w.ImplViolation(ids[j], "library mutated caller-owned "+what+" ("+step+")", cc, "")
+						w.Count("frame_violation", what)
+					}
+				}
+				snap0 := snapVerify(doc, callerInitial, envelope, apiDesc, c.store, sharedPluginConfig, sharedUserMetadata)
 				v, err := verifier.NewVerifierWithOptions(c.store, vopts)
+				frame("NewVerifierWithOptions", snap0, callerInitial)
 				if err != nil {
 					t, l := classifyConstruct(err.Error())
 					if t == "" {
@@ -523,9 +539,30 @@ func runAPI(a *Args, w *CaseWriter, rng *Rng, nAPI int, next func() (int64, bool
 					return
 				}
 				if late {
-					doc.TrustPolicies[0].TrustedIdentities = append([]string(nil), identities...)
+					doc.TrustPolicies[0].TrustedIdentities = callerIDs
 				}
-				outcome, verr := v.Verify(ctx, apiDesc, envelope, notation.VerifierVerifyOptions{ArtifactReference: TestRef, SignatureMediaType: c.format})
+				vvo := notation.VerifierVerifyOptions{ArtifactReference: TestRef, SignatureMediaType: c.format, PluginConfig: sharedPluginConfig, UserMetadata: sharedUserMetadata}
+				snap1 := snapVerify(doc, callerIDs, envelope, apiDesc, c.store, sharedPluginConfig, sharedUserMetadata)
+				outcome, verr := v.Verify(ctx, apiDesc, envelope, vvo)
+				frame("Verify", snap1, callerIDs)
+				if cs.Bool() {
+					// history: a second verification with the SAME verifier, document, envelope and option objects
+					o2, verr2 := v.Verify(ctx, apiDesc, envelope, vvo)
+					frame("second Verify", snap1, callerIDs)
+					r1, n1 := FindResult(outcome, trustpolicy.TypeAuthenticity)
+					r2, n2 := FindResult(o2, trustpolicy.TypeAuthenticity)
+					same := n1 == n2 && (verr == nil) == (verr2 == nil) && (r1 == nil) == (r2 == nil)
+					if same && r1 != nil {
+						_, l1 := classifyVerify(r1.Error)
+						_, l2 := classifyVerify(r2.Error)
+						same = l1 == l2
+					}
+					w.Count("verify_repeated", fmt.Sprint(same))
+					if !same {
+						cc.Obs = fmt.Sprintf("second Verify with the same objects differs: first err=%v, second err=%v", verr, verr2)
+						w.ImplViolation(ids[j], "a second verification with the same verifier, policy document, envelope and options gives a different authenticity result", cc, "")
+					}
+				}
 				r, n := FindResult(outcome, trustpolicy.TypeAuthenticity)
 				if r == nil || n != 1 {
 					obsTerm, label = CApp("OVerify", "VPanic", CBool(verr != nil)), fmt.Sprintf("no single authenticity result (n=%d, err=%v)", n, verr)
